@@ -90,6 +90,12 @@ pub fn gen(rng: &mut Rng, thorough: bool, sink: &mut Sink) {
   } }
   for bad in ["g", "G", " ", ":", "%", "-"] { let mut t = tag.to_string(); t.replace_range(10..11, bad); sink.case(bcase(1, format!("did:iota:{}", t).as_bytes()), "tag-nonhex"); }
   for s in ["", "did:iota", "did:iota:", "did:iota::", " did:iota:0x00", "did:iota:a:b:c"] { sink.case(bcase(1, s.as_bytes()), "table"); }
+  // str::to_lowercase is Unicode-aware: KELVIN SIGN lowers to ASCII 'k', U+0130 to 'i' + combining dot
+  for n in ["\u{212A}", "a\u{212A}", "\u{212A}\u{212A}k", "\u{0130}", "\u{0130}ota", "io\u{212A}a", "\u{212B}", "\u{00C9}", "a\u{212A}\u{0130}"] {
+    for t in [tag, tag_up] { sink.case(bcase(1, format!("did:iota:{}:{}", n, t).as_bytes()), "unicode-lower"); }
+    sink.case(bcase(1, format!("did:{}:{}", n, tag).as_bytes()), "unicode-lower");
+  }
+  sink.case(bcase(1, format!("did:iota:0\u{212A}{}", &tag[2..]).as_bytes()), "unicode-lower");
   // (b) all network names up to length 2 over an alphabet, random longer ones, with random tags, through new()
   let alpha: Vec<char> = "az09AZ-".chars().collect();
   let mut names: Vec<String> = vec![String::new()];
